@@ -147,6 +147,10 @@ func mutateVals(r *rand.Rand, v []VW) []VW {
 
 // Gen builds one scenario: the DAG is built online with the real Build on a reference instance.
 func Gen(r *rand.Rand, o GenOpts) []string {
+	// "late fork root + restart" family (latefork.go)
+	if (o.Mix == "C08" && r.Intn(8) == 0) || (o.Mix == "C04" && r.Intn(10) == 0) {
+		return genLateFork(r, o)
+	}
 	cfg := Cfg{FcCap: []int{200, 200, 200, 20000, 1, 0}[r.Intn(6)],
 		RootsNum: []uint{50, 50, 0, 1, 2, 1000}[r.Intn(6)], RootsFrames: []int{5, 5, 0, 1, 2, 100}[r.Intn(6)]}
 	if o.Mix == "C04" || o.Mix == "C07" {
